@@ -282,6 +282,9 @@ def truthy(v):
         return v.length > 0
     if isinstance(v, (VDType, VKind, VFunc, VClass, VModule, VSlice, VExc)):
         return z3.BoolVal(True)
+    if isinstance(v, VObj) and v.tag in ('symdict', 'bucket', 'symset', 'symlist'):
+        from .symcoll import truthy_sym
+        return truthy_sym(v)
     if isinstance(v, VObj):
         b = getattr(v.pycls, '__bool__', None)
         if b is not None:
@@ -351,6 +354,8 @@ def veq(a, b, fresh_int=None):
         if a.tag == 'vector' and b.tag == 'vector':
             from .vecmodel import vec_eq
             return vec_eq(a, b)
+        if a.tag == 'keyval' and b.tag == 'keyval':
+            return a.term == b.term
         if a.tag == 'table' and b.tag == 'table':
             ca, cb = a.fields.get('_underlying'), b.fields.get('_underlying')
             if not isinstance(ca, VTuple) or not isinstance(cb, VTuple) or len(ca.items) != len(cb.items):
